@@ -464,7 +464,21 @@ class Sym:
         return cur().concretize_index(self)
 
     def __round__(self, n=None):
-        return self
+        """round(x, n): the nearest multiple of 10^-n (ties arbitrary): a fresh integer k with |x - k 10^-n| <= 10^-n / 2.
+        round(x) / round(x, None) gives the (symbolic) integer itself."""
+        env = cur()
+        if getattr(env, 'mode', 'sym') != 'sym':
+            raise HarnessError("round() on a symbolic number outside a symbolic run")
+        if self.is_int and (n is None or n >= 0):
+            return self
+        digits = 0 if n is None else int(n)
+        scale = Fraction(10) ** digits
+        k = z3.Int(env.fresh_name('rounded'))
+        x = to_real(self.t)
+        kr = z3.ToReal(k) / z3.RealVal(scale)
+        half = z3.RealVal(Fraction(1, 2) / scale)
+        env.pc.append(z3.And(x - kr <= half, kr - x <= half))
+        return Sym(k, 'py') if n is None else Sym(kr, self.flavor)
 
 
 # --------------------------------------------------------------------------------------------
